@@ -38,6 +38,7 @@ type Cfg struct {
 	Report   map[string]bool // property ids whose violations are reported; nil = all
 	Skip     map[string]bool // violation fingerprints recorded as known findings (counted, not reported)
 	Heights  int             // 1 = single height (nodes stop after their commit)
+	C11      bool            // one-step extension: deliver every honest output at once to every peer in a matching state
 }
 
 type Msg struct {
@@ -62,6 +63,7 @@ type LState struct {
 	Sent         []Sent
 	Commits      []CommitRec
 	Props        [][2]string // stored proposals (view, hash) at the current height
+	Rec          map[string]bool // successful stores at the current height
 	Approved     []string
 	Requested    []string
 	checked2     bool
@@ -276,7 +278,12 @@ func (e *Engine) canon(ln *liveNode) (string, *LState) {
 	})
 	ls.Commits = append([]CommitRec{}, n.Commits...)
 	rec := n.Store.SortedRec()
+	ls.Rec = map[string]bool{}
 	for _, d := range rec {
+		ls.Rec[d] = true
+		if f := strings.Split(d, "/"); f[0] == "VC" && len(f) >= 4 {
+			ls.Rec["VCS/"+f[1]+"/"+f[2]+"/"+f[3]] = true
+		}
 		f := strings.Split(d, "/")
 		if f[0] == "PP" && f[1] == fmt.Sprint(ls.Height) {
 			ls.Props = append(ls.Props, [2]string{f[2], f[3]})
@@ -543,7 +550,7 @@ func (e *Engine) expand(g GKey) []succ {
 			if cur != int(g[s]) || len(rs) > 0 {
 				ng := g
 				ng[s] = int32(cur)
-				out = append(out, succ{ng, GEvent{'f', int8(node), -1}, rs})
+				out = append(out, e.withC11(g, succ{ng, GEvent{'f', int8(node), -1}, rs}, s))
 			}
 		}
 		if e.Cfg.D < 0 || g[maxNodes] > 0 { // single deliveries
@@ -555,7 +562,7 @@ func (e *Engine) expand(g GKey) []succ {
 					if e.Cfg.D >= 0 {
 						ng[maxNodes]--
 					}
-					out = append(out, succ{ng, GEvent{'d', int8(node), int32(m)}, []*LRes{r}})
+					out = append(out, e.withC11(g, succ{ng, GEvent{'d', int8(node), int32(m)}, []*LRes{r}}, s))
 				}
 			}
 		}
@@ -564,7 +571,7 @@ func (e *Engine) expand(g GKey) []succ {
 			if r.Next != int(g[s]) || len(r.Viol) > 0 {
 				ng := g
 				ng[s] = int32(r.Next)
-				out = append(out, succ{ng, GEvent{'t', int8(node), -1}, []*LRes{r}})
+				out = append(out, e.withC11(g, succ{ng, GEvent{'t', int8(node), -1}, []*LRes{r}}, s))
 			}
 		}
 		for _, m := range e.adv.menu(soup, ls) {
@@ -572,11 +579,109 @@ func (e *Engine) expand(g GKey) []succ {
 			if r.Next != int(g[s]) || len(r.Viol) > 0 {
 				ng := g
 				ng[s] = int32(r.Next)
-				out = append(out, succ{ng, GEvent{'b', int8(node), int32(m)}, []*LRes{r}})
+				out = append(out, e.withC11(g, succ{ng, GEvent{'b', int8(node), int32(m)}, []*LRes{r}}, s))
 			}
 		}
 	}
 	return out
+}
+
+func (e *Engine) withC11(g GKey, sc succ, s int) succ {
+	if e.Cfg.C11 {
+		if v := e.c11(g, sc.ng, s); len(v) > 0 {
+			sc.res = append(sc.res, &LRes{Viol: v})
+		}
+	}
+	return sc
+}
+
+// c11 = the one-step extension of C11: every message newly emitted on the transition g -> ng by the node in
+// slot s is delivered at once to (a replayed copy of) every correct peer that satisfies the property's
+// precondition in ng; the stated effect must follow.
+func (e *Engine) c11(g, ng GKey, s int) []Violation {
+	before := map[Sent]bool{}
+	for _, x := range e.lstate(int(g[s])).Sent {
+		before[x] = true
+	}
+	var viol []Violation
+	r := e.W.R
+	for _, x := range e.lstate(int(ng[s])).Sent {
+		if before[x] {
+			continue
+		}
+		m := e.msg(x.Msg)
+		i := m.Info
+		if i.Bad || !i.Sender.SigOK {
+			continue
+		}
+		for ps, pnode := range e.Honest {
+			if ps == s || x.To&(1<<uint(pnode)) == 0 {
+				continue
+			}
+			p := e.lstate(int(ng[ps]))
+			if p.Dead || len(p.Commits) > 0 || p.Height != i.Hdr.Height {
+				continue
+			}
+			pid := string(e.Cfg.C[pnode].ID)
+			v := i.Hdr.View
+			var pre bool
+			switch i.Kind {
+			case ref.KNV:
+				pre = p.View <= v
+				for _, pr := range p.Props {
+					if pr[0] == fmt.Sprint(v) {
+						pre = false // already accepted a proposal for that view
+					}
+				}
+			case ref.KVC:
+				pre = p.View <= v && r.Leader(v) == pid && !p.Rec[vcKey(i)]
+			case ref.KP:
+				pre = p.View <= v && !p.Rec[fmt.Sprintf("P/%d/%d/%s/%s", i.Hdr.Height, v, i.Hdr.Hash, i.Sender.ID)]
+			case ref.KC:
+				pre = !p.Rec[fmt.Sprintf("C/%d/%d/%s/%s", i.Hdr.Height, v, i.Hdr.Hash, i.Sender.ID)]
+			}
+			if !pre {
+				continue
+			}
+			res := e.localStep(int(ng[ps]), Event{'d', x.Msg})
+			q := e.lstate(res.Next)
+			bad := func(clause, format string, a ...interface{}) {
+				viol = append(viol, Violation{Prop: "C11", Clause: clause, Detail: fmt.Sprintf("n%d (h%d,v%d) ", pnode, p.Height, p.View) + fmt.Sprintf(format, a...), HasExt: true, ExtPeer: pnode, ExtMsg: x.Msg})
+			}
+			switch i.Kind {
+			case ref.KNV:
+				if q.Height == p.Height && len(q.Commits) == 0 {
+					prepared := false
+					for _, y := range q.Sent {
+						mi := e.msg(y.Msg).Info
+						if mi.Kind == ref.KP && mi.Hdr.View == v && mi.Hdr.Hash == i.PP.Hash {
+							prepared = true
+						}
+					}
+					if q.View != v || !prepared {
+						bad("newview-not-adopted", "did not adopt the correct leader's %s (view after delivery %d, PREPARE sent=%v)", i.Desc(), q.View, prepared)
+					}
+				}
+			case ref.KVC:
+				if q.Height == p.Height && !q.Rec[vcKey(i)] && q.View <= v {
+					bad("vote-not-counted", "as the addressed leader did not count the correct member's %s", i.Desc())
+				}
+			case ref.KP:
+				if q.Height == p.Height && len(q.Commits) == 0 && !q.Rec[fmt.Sprintf("P/%d/%d/%s/%s", i.Hdr.Height, v, i.Hdr.Hash, i.Sender.ID)] {
+					bad("prepare-not-counted", "did not count the correct member's %s", i.Desc())
+				}
+			case ref.KC:
+				if q.Height == p.Height && len(q.Commits) == 0 && !q.Rec[fmt.Sprintf("C/%d/%d/%s/%s", i.Hdr.Height, v, i.Hdr.Hash, i.Sender.ID)] {
+					bad("commit-not-counted", "did not count the correct member's %s", i.Desc())
+				}
+			}
+		}
+	}
+	return viol
+}
+
+func vcKey(i ref.Info) string {
+	return fmt.Sprintf("VCS/%d/%d/%s", i.Hdr.Height, i.Hdr.View, i.Sender.ID)
 }
 
 func (e *Engine) Run(maxFound int) {
@@ -696,11 +801,11 @@ func (e *Engine) checkGlobal(ng, from GKey, ev GEvent) {
 	for s, node := range e.Honest {
 		for _, c := range e.lstate(int(ng[s])).Commits {
 			if prev, ok := byH[c.Height]; ok && prev != c.Tag {
-				e.note(Violation{"C01", "disagreement", fmt.Sprintf("height %d: blocks %s and %s both committed by correct nodes (n%d)", c.Height, prev, c.Tag, node)}, from, ev)
+				e.note(Violation{Prop: "C01", Clause: "disagreement", Detail: fmt.Sprintf("height %d: blocks %s and %s both committed by correct nodes (n%d)", c.Height, prev, c.Tag, node)}, from, ev)
 			}
 			byH[c.Height] = c.Tag
 			if !approved[c.Tag] {
-				e.note(Violation{"C04", "commit-unvalidated-block", fmt.Sprintf("n%d committed %s which no correct member's ValidateBlockProposal approved and no correct member proposed", node, c.Tag)}, from, ev)
+				e.note(Violation{Prop: "C04", Clause: "commit-unvalidated-block", Detail: fmt.Sprintf("n%d committed %s which no correct member's ValidateBlockProposal approved and no correct member proposed", node, c.Tag)}, from, ev)
 			}
 		}
 	}
@@ -719,6 +824,9 @@ type TraceEvent struct {
 }
 
 type ReplayFile struct {
+	C11Ext    bool         `json:"c11_extension_last_event,omitempty"`
+	Live      *LiveOpt     `json:"liveness_extension,omitempty"`
+	LiveLog   []string     `json:"liveness_log,omitempty"`
 	Property  string       `json:"property"`
 	Config    string       `json:"config"`
 	Violation Violation    `json:"violation"`
@@ -761,6 +869,10 @@ func (e *Engine) Render(f Found) ReplayFile {
 			cur[slot] = int32(e.localStep(int(cur[slot]), Event{'t', 0}).Next)
 		}
 	}
+	if f.V.HasExt {
+		rf.Events = append(rf.Events, e.msgEvent("deliver", f.V.ExtPeer, f.V.ExtMsg))
+		rf.C11Ext = true
+	}
 	return rf
 }
 
@@ -799,7 +911,7 @@ func Replay(cfg Cfg, rf ReplayFile) ([]Violation, []string) {
 		obs := nodes[i].Start()
 		viol = append(viol, obs.Viol...)
 	}
-	for _, ev := range rf.Events {
+	for k, ev := range rf.Events {
 		n := nodes[ev.Node]
 		if n == nil {
 			continue
@@ -812,7 +924,45 @@ func Replay(cfg Cfg, rf ReplayFile) ([]Violation, []string) {
 			if ev.Block != "-" && ev.Block != "" {
 				raw.Block = kit.NewBlock(ev.BlockH, ev.Block)
 			}
-			obs = n.Step(Event{Kind: 'd'}, raw, ref.Parse(raw), nil)
+			info := ref.Parse(raw)
+			obs = n.Step(Event{Kind: 'd'}, raw, info, nil)
+			if rf.C11Ext && k == len(rf.Events)-1 {
+				// the one-step extension of C11: the stated effect must have followed
+				v := info.Hdr.View
+				rec := map[string]bool{}
+				for _, d := range n.Store.Rec {
+					rec[d] = true
+					if f := strings.Split(d, "/"); f[0] == "VC" && len(f) >= 4 {
+						rec["VCS/"+f[1]+"/"+f[2]+"/"+f[3]] = true
+					}
+				}
+				sameH := uint64(n.V.S.Height()) == info.Hdr.Height && len(n.Commits) == 0
+				switch info.Kind {
+				case ref.KNV:
+					prepared := false
+					for _, o := range n.Comm.Outs {
+						oi := ref.Parse(o.Msg)
+						if oi.Kind == ref.KP && oi.Hdr.View == v && oi.Hdr.Hash == info.PP.Hash {
+							prepared = true
+						}
+					}
+					if sameH && (uint64(n.V.S.View()) != v || !prepared) {
+						viol = append(viol, Violation{Prop: "C11", Clause: "newview-not-adopted", Detail: fmt.Sprintf("n%d did not adopt the correct leader's %s", ev.Node, info.Desc())})
+					}
+				case ref.KVC:
+					if sameH && !rec[vcKey(info)] && uint64(n.V.S.View()) <= v {
+						viol = append(viol, Violation{Prop: "C11", Clause: "vote-not-counted", Detail: fmt.Sprintf("n%d did not count %s", ev.Node, info.Desc())})
+					}
+				case ref.KP:
+					if sameH && !rec[fmt.Sprintf("P/%d/%d/%s/%s", info.Hdr.Height, v, info.Hdr.Hash, info.Sender.ID)] {
+						viol = append(viol, Violation{Prop: "C11", Clause: "prepare-not-counted", Detail: fmt.Sprintf("n%d did not count %s", ev.Node, info.Desc())})
+					}
+				case ref.KC:
+					if sameH && !rec[fmt.Sprintf("C/%d/%d/%s/%s", info.Hdr.Height, v, info.Hdr.Hash, info.Sender.ID)] {
+						viol = append(viol, Violation{Prop: "C11", Clause: "commit-not-counted", Detail: fmt.Sprintf("n%d did not count %s", ev.Node, info.Desc())})
+					}
+				}
+			}
 		case "timeout":
 			obs = n.Step(Event{Kind: 't'}, nil, ref.Info{}, nil)
 		}
@@ -839,11 +989,11 @@ func Replay(cfg Cfg, rf ReplayFile) ([]Violation, []string) {
 	for _, i := range idx {
 		for _, c := range nodes[i].Commits {
 			if prev, ok := byH[c.Height]; ok && prev != c.Tag {
-				viol = append(viol, Violation{"C01", "disagreement", fmt.Sprintf("height %d: blocks %s and %s both committed by correct nodes (n%d)", c.Height, prev, c.Tag, i)})
+				viol = append(viol, Violation{Prop: "C01", Clause: "disagreement", Detail: fmt.Sprintf("height %d: blocks %s and %s both committed by correct nodes (n%d)", c.Height, prev, c.Tag, i)})
 			}
 			byH[c.Height] = c.Tag
 			if !approved[c.Tag] {
-				viol = append(viol, Violation{"C04", "commit-unvalidated-block", fmt.Sprintf("n%d committed %s which no correct member approved or proposed", i, c.Tag)})
+				viol = append(viol, Violation{Prop: "C04", Clause: "commit-unvalidated-block", Detail: fmt.Sprintf("n%d committed %s which no correct member approved or proposed", i, c.Tag)})
 			}
 		}
 	}
@@ -925,4 +1075,31 @@ func (e *Engine) RenderLocal(f Found) ReplayFile {
 	}
 	rf.Events = append(rf.Events, e.msgEvent("byz", ls.Node, int(f.State[1])))
 	return rf
+}
+
+// TraceTo returns the event path from the initial state to g.
+func (e *Engine) TraceTo(g GKey) []GEvent { return e.trace(g) }
+
+// ReplayLive re-executes the prefix of a liveness counterexample on a fresh engine and re-runs the timed extension.
+func ReplayLive(cfg Cfg, rf ReplayFile) (bool, string, []string) {
+	e := NewEngine(cfg)
+	g := e.Init()
+	e.visited[g] = gedge{depth: 0}
+	for _, ev := range rf.Events {
+		slot := e.slotOf(ev.Node)
+		switch ev.Kind {
+		case "deliver", "byz":
+			c, _ := hex.DecodeString(ev.Content)
+			raw := &interfaces.ConsensusRawMessage{Content: c}
+			if ev.Block != "-" && ev.Block != "" {
+				raw.Block = kit.NewBlock(ev.BlockH, ev.Block)
+			}
+			id := e.intern(raw, ev.Prim)
+			g[slot] = int32(e.localStep(int(g[slot]), Event{'d', id}).Next)
+		case "timeout":
+			g[slot] = int32(e.localStep(int(g[slot]), Event{'t', 0}).Next)
+		}
+	}
+	ok, why, _, log, _ := e.extend(g, *rf.Live, true)
+	return ok, why, log
 }
